@@ -18,6 +18,7 @@ import (
 	stakingtypes "github.com/cosmos/cosmos-sdk/x/staking/types"
 	"github.com/ethereum/go-ethereum/common"
 	ethtypes "github.com/ethereum/go-ethereum/core/types"
+	"github.com/ethereum/go-ethereum/crypto"
 
 	distrpc "github.com/haqq-network/haqq/precompiles/distribution"
 	stakingpc "github.com/haqq-network/haqq/precompiles/staking"
@@ -75,6 +76,9 @@ func c05Gen(r *rand.Rand, tier string, mode string) []Case {
 		}
 		// a Commit inside the reverted span (what a precompile call does) for an object that is dirty outside the span: the
 		// final Commit has to write the reverted values back over the flushed ones
+		// … and a slot the keeper held before the transaction, cleared inside the span
+		out = append(out, Case{"sreset 500 300 2", "prestate 1 1 7", "setnonce 1 4", "dump", "snap", "setstate 1 1 0", "commit", "dump", "revert 0", "dump", "commit", "dump"},
+			Case{"sreset 500 300 2", "prestate 1 1 7", "prestate 1 0 3", "setstate 1 0 9", "dump", "snap", "snap", "setstate 1 1 0", "setstate 1 0 0", "commit", "dump", "revert 1", "dump", "revert 0", "dump", "commit", "dump"})
 		for _, k := range []string{"setstate 1 0 5", "setnonce 1 9", "addbal 1 11", "setstate 1 1 0"} {
 			out = append(out, Case{"sreset 500 300 2", "setstate 1 1 2", "setnonce 1 4", "dump", "snap", k, "commit", "dump", "revert 0", "dump", "commit", "dump"})
 		}
@@ -239,7 +243,7 @@ func c05Gen(r *rand.Rand, tier string, mode string) []Case {
 	// fixed case: a payment to a module account, then a precompile call in the same frame — the flush at the precompile's
 	// entry mints for the module account and is refused; nothing of that may stay
 	out = append(out, Case{"psup # value=989 gas=2000000 script=S:1:4,[,z:fee_collector:973,D:94490,G:5533,]", "psup # value=0 gas=2000000 script=z:distribution:41,d:1000,S:0:1",
-		"psup # value=10 gas=2000000 script=[,z:bonded_tokens_pool:5,C,]R,P:1"})
+		"psup # value=10 gas=2000000 script=[,z:bonded_tokens_pool:5,C,]R,P:1", "sd3 # values=0,300,0", "sd3 # values=7,0,300,300,0"})
 	// fixed case: value sent to module accounts from inside the EVM, by the contract and by the origin directly
 	out = append(out, Case{"ptx # value=900 gas=2000000 script=S:0:4,z:fee_collector:300,P:5", "ptx # value=0 gas=2000000 script=z:distribution:7",
 		"dtx # m=paymodule amt=1000000 gas=100000", "ptx # value=50 gas=2000000 script=[,z:bonded_tokens_pool:20,],S:1:1"})
@@ -610,6 +614,10 @@ func c05Exec(c Case, prop string) (outs []string, fails []Failure, tags []string
 			case "setstate":
 				env.db.SetState(ad(1), key(2), key(3))
 				out = "ok"
+			case "prestate":
+				// storage the keeper holds before the transaction starts (written by an earlier transaction)
+				app.EvmKeeper.SetState(env.ctx, ad(1), key(2), key(3).Bytes())
+				out = "ok"
 			case "addrefund":
 				env.db.AddRefund(arg(1).Uint64())
 				out = "ok"
@@ -798,6 +806,33 @@ func c05Exec(c Case, prop string) (outs []string, fails []Failure, tags []string
 					tags = append(tags, "supply-only-transaction")
 					if o.dSupply.Sign() != 0 {
 						fails = append(fails, Failure{Signature: prop + ":tx:supply-changed", What: "the total supply changed by " + o.dSupply.String() + "\n  observed: " + o.String(), Case: c[i : i+1]})
+					}
+				}
+			case "sd3":
+				// a contract that self-destructs on every call (CALLER SELFDESTRUCT), called by the puppet several times in one
+				// transaction with the given values: each call hands everything the contract holds back to the puppet, so the
+				// puppet's balance and the total supply end where they started.   sd3 # values=0,300,0
+				out = "skip"
+				puppetSetup()
+				{
+					nw, kr := fixture()
+					kv := vmKV(f)
+					dep := kr.GetKey(0)
+					x := crypto.CreateAddress(dep.Addr, nw.App.EvmKeeper.GetNonce(nw.GetContext(), dep.Addr))
+					res, _, _ := c07Send(0, evmtypes.EvmTxArgs{Input: common.FromHex("6133ff6000526002601ef3"), GasLimit: 200000, GasPrice: big.NewInt(2_000_000_000)})
+					if res.Code != 0 || len(nw.App.EvmKeeper.GetCode(nw.GetContext(), common.BytesToHash(nw.App.EvmKeeper.GetAccountOrEmpty(nw.GetContext(), x).CodeHash))) != 2 {
+						panic("sd3: deployment failed: " + res.Log)
+					}
+					var script []byte
+					for _, v := range strings.Split(kv["values"], ",") {
+						script = append(script, puppetCall(0, x, mustBig(v), nil)...)
+					}
+					o := puppetRun(big.NewInt(0), script, 1_000_000)
+					tags = append(tags, "repeated-self-destruct")
+					if o.code != 0 || o.failed {
+						tags = append(tags, "repeated-self-destruct-failed")
+					} else if o.dSupply.Sign() != 0 || o.dP.Sign() != 0 {
+						fails = append(fails, Failure{Signature: prop + ":tx:supply-changed", What: "a contract self-destructing to its caller on each of the calls with values " + kv["values"] + ": the total supply changed by " + o.dSupply.String() + ", the caller's balance by " + o.dP.String() + "\n  observed: " + o.String(), Case: c[i : i+1]})
 					}
 				}
 			case "dtx":
